@@ -200,6 +200,34 @@ Definition c05_answer_ok (k : br_case) (a : ans) : bool :=
   | _, _ => false
   end.
 
+(* serving obligation of the THROUGH-cursor variant ("also the through-cursor variant from every start block at or
+   below the junction"; "serves at least every cursor whose LIB lies on its retained canonical chain and whose block
+   is still retained"): the request is for a retained canonical start block at or below the junction.
+   0 = no obligation or served; 2 = refused (violation); 6 = refused in the one situation recorded as known finding
+   C05-through-forked-below-hub-lib: the cursor block is on a fork whose junction the hub's LIB has passed. *)
+Definition c05_through_obligation (k : br_case) (a : ans) : N :=
+  if negb (a_kind a =? 1) || a_served a || a_panic a then 0 else
+  let all := stream_events (r_steps k) (length (r_steps k)) in
+  let evm := stream_events (r_steps k) (N.to_nat (a_m a)) in
+  match cons_fold cons0 (firstn (S (N.to_nat (a_k a))) all), cons_fold cons0 evm with
+  | Some ck, Some cm =>
+      let cmr := with_retained k a cm in
+      let j := junction_num (cs_stack ck) (cs_stack cm) in
+      let start_ok := existsb (fun b => (bnum b =? a_start a) && memN (bid b) (a_stored a)) (cs_stack cmr) in
+      if a_libon a && a_blkret a && start_ok && (a_lowest a <=? a_start a) && (a_start a <=? j) &&
+         match cu_step (a_cur a) with SNew | SUndo => true | _ => false end
+      then
+        let forked := negb (memN (ri (cu_blk (a_cur a))) (ids (cs_stack cm))) in
+        let libnum := match rev (finals_of cm) with l :: _ => bnum l | [] => 0 end in
+        if forked && (j <? libnum) then 6 else 2
+      else 0
+  | _, _ => 0
+  end.
+Definition c05_through_code (k : br_case) : N :=
+  if negb (wf_b (r_hist k) && lib_ok_b LNone (r_hist k)) then 0 else
+  let cs := map (c05_through_obligation k) (r_ans k) in
+  if existsb (N.eqb 2) cs then 2 else if existsb (N.eqb 6) cs then 6 else 0.
+
 Definition c05_prop (k : br_case) : bool :=
   negb (wf_b (r_hist k) && lib_ok_b LNone (r_hist k)) || forallb (c05_answer_ok k) (r_ans k).
 
@@ -207,7 +235,9 @@ Definition br_panicked (k : br_case) : bool :=
   existsb a_panic (r_ans k) || existsb (fun o => result_eqb (o_result o) RPanic) (r_steps k).
 
 Definition c05_verdict (k : br_case) : N :=
-  if br_panicked k then 4 else (if br_corresponds k then 0 else 1) + (if c05_prop k then 0 else 2).
+  if br_panicked k then 4 else
+  let base := (if br_corresponds k then 0 else 1) + (if c05_prop k && negb (c05_through_code k =? 2) then 0 else 2) in
+  if (base =? 0) && (c05_through_code k =? 6) then 6 else base.
 Definition c05_verdicts (l : list br_case) := nonzero (map c05_verdict l).
 Definition c05_in_scope (k : br_case) : bool :=
   wf_b (r_hist k) && lib_ok_b LNone (r_hist k) && existsb a_served (r_ans k).
